@@ -314,6 +314,7 @@ fn body(tid: usize, prog: &ThreadProg) {
                     sh.guard_released(tid, *uid, false);
                     let sole = sh.ucs[tid].guards.len() == 1;
                     sh.ucs[tid].suspended = true;
+                    sh.ucs[tid].suspended_uid = *uid;
                     gd.reactivate();
                     let sh = shadow();
                     sh.ucs[tid].suspended = false;
